@@ -212,16 +212,21 @@ def rule_lscap(ctx: Ctx) -> List[Ob]:
             e = b.get("max_iter")
             n = mm.cfg.node_of(c)
             cand = [e] if e is not None else []
+            stale = []
             if isinstance(e, ast.Name):
-                cand = [v for _, v, _ in mm.rd.value_exprs(n, e.id) if v is not None]
-            ok = bool(cand)
+                defs_ = [(d_, v) for d_, v, _ in mm.rd.value_exprs(n, e.id) if v is not None]
+                cand = [v for _, v in defs_]
+                # the remaining budget changes at every evaluation: the cap must be computed in the iteration that uses it
+                stale = [d_ for d_, _ in defs_ if mm.in_loop(c) and not mm.cfg.in_loop(d_, mm.loop)]
+            ok = bool(cand) and not stale
             for v in cand:
                 good = isinstance(v, ast.Call) and dotted(v.func) in ("min", "np.minimum") and any(
                     isinstance(a, ast.BinOp) and isinstance(a.op, ast.Sub) and src(a.left) == "maxfun"
                     and src(a.right) == f"{mm.sf}.nfev" for a in v.args)
                 ok = ok and good
             obs.append(ob("LSCAP", "line-search cap is bounded by the remaining evaluation budget", mm.f, c, ok,
-                          f"max_iter <- {short(e)}" + ("" if ok else ": not min(.., maxfun - nfev)"),
+                          f"max_iter <- {short(e)}" + ("" if ok else (f": computed once at line {stale[0].line}, before the loop -- later iterations use a stale budget"
+                                                                     if stale else ": not min(.., maxfun - nfev)")),
                           construct=f"line_search(max_iter={short(e, 50)})"))
     return obs
 
